@@ -48,6 +48,8 @@ let () =
   let n1 = max nr 1 in
   let rc = Array.make n1 0 and wf = Array.make n1 0 in          (* last values stored by the DATA records *)
   let lockword = Array.make n1 (-1) in                          (* raw owner of rw->mutex.lock *)
+  let wlockword = Array.make n1 (-1) in                         (* raw owner of rw->mutex.waiter_lock *)
+  let cqueue = Array.make n1 [] and mqueue = Array.make n1 [] in (* raw wait lists of rw->cond / rw->mutex *)
   let rheld = Hashtbl.create 16 and wheld = Array.make n1 (-1) in (* holders by completed API calls *)
   let cur = Hashtbl.create 16 in                                (* thread -> (op, rwlock) of the call in progress *)
   let get h k = try Hashtbl.find h k with Not_found -> 0 in
@@ -56,7 +58,13 @@ let () =
   let monitor (ln, a, k, rest) =
     match k, rest with
     | "TRY", [o; f; _] -> let (i, fld) = obj o in if fld = "mlock" && f = "0" then lockword.(i) <- a
-    | "REL", [o; _; _] -> let (i, fld) = obj o in if fld = "mlock" then lockword.(i) <- (-1)
+    | "REL", [o; _; _] -> let (i, fld) = obj o in
+      if fld = "mlock" then lockword.(i) <- (-1) else if fld = "mwlock" then wlockword.(i) <- (-1)
+    | "ENQ", [o; n; _] -> let (i, fld) = obj o in
+      if fld = "cwl" then cqueue.(i) <- cqueue.(i) @ [node n] else mqueue.(i) <- mqueue.(i) @ [node n]
+    | ("WAKE" | "SIGNAL"), [o; n; _] -> let (i, fld) = obj o in
+      if fld = "cwl" then cqueue.(i) <- List.filter (fun y -> y <> node n) cqueue.(i)
+      else mqueue.(i) <- List.filter (fun y -> y <> node n) mqueue.(i)
     | "DATA", [o; f; v] ->
       let (i, fld) = obj o in
       if fld = "self" then begin
@@ -66,6 +74,7 @@ let () =
         if wf.(i) = 1 && rc.(i) <> 0 then addbad (Printf.sprintf "line%d:write_flag-set-with-reader_count=%d" ln rc.(i));
         if rc.(i) < 0 || rc.(i) > 1000000 then addbad (Printf.sprintf "line%d:reader_count-underflow" ln)
       end
+    | "ACQ", [o; _; _] when (let (_, fld) = obj o in fld = "mwlock") -> let (i, _) = obj o in wlockword.(i) <- a
     | "ACQ", [o; _; _] ->
       let (i, fld) = obj o in
       (* ACQ(cond lock) by a thread inside rdlock / wrlock = its loop test was true *)
@@ -179,7 +188,21 @@ let () =
    | None -> Printf.printf "OK events=%d rwlocks=%d status=%s\n" !count nr !status
    | Some m -> Printf.printf "MISMATCH %s\n" m);
   (* ---- end-of-run monitors ---- *)
-  if !status <> "DONE" then addbad ("status=" ^ !status);
+  (* a watchdog stop is a failure of THIS property only if an unfinished caller is blocked on the rwlock with nothing
+     left that could wake it: queued in rw->cond while nobody holds the lock (last stored reader_count = 0 and
+     write_flag = 0) and nobody is inside an unlock call, or queued in rw->mutex whose lock word and waiter_lock are
+     free.  Otherwise every unfinished caller is runnable or never started (scheduler starvation on a loaded
+     machine): reported, not a failure. *)
+  let unfinished = List.filter_map (fun (t, d, _) -> if d <> 1 then Some t else None) !thrdone in
+  let unlocking i = Hashtbl.fold (fun _ (op, j) acc -> acc || (op = 22 && j = i)) cur false in
+  let blocked = List.filter (fun t ->
+      let r = ref false in
+      Array.iteri (fun i q -> if List.mem t q && rc.(i) = 0 && wf.(i) = 0 && not (unlocking i) then r := true) cqueue;
+      Array.iteri (fun i q -> if List.mem t q && lockword.(i) < 0 && wlockword.(i) < 0 then r := true) mqueue;
+      !r) unfinished in
+  let starved = (!status = "STUCK" && blocked = []) in
+  if !status <> "DONE" && not starved then
+    addbad (Printf.sprintf "status=%s blocked=[%s]" !status (String.concat "," (List.map string_of_int blocked)));
   let shares = ref 0 in
   List.iter (fun (i, kv) ->
       let g k = List.assoc k kv in
@@ -189,13 +212,13 @@ let () =
       if !status = "DONE" && (g "readers_in" <> 0 || g "writers_in" <> 0) then addbad (Printf.sprintf "r%d:holders-left" i);
       shares := max !shares (g "max_readers")) !mons;
   List.iter (fun (t, d, kv) ->
-      if d <> 1 then addbad (Printf.sprintf "thread%d-not-finished" t);
+      if d <> 1 && not starved then addbad (Printf.sprintf "thread%d-not-finished" t);
       if List.assoc "badret" kv <> 0 then addbad (Printf.sprintf "thread%d-unexpected-return-code" t)) !thrdone;
   if !mismatch = None && !status = "DONE" then
     Array.iteri (fun i s ->
         if s.cs.clock <> None || s.cs.cwl <> [] || s.cs.ms.holder <> None || s.cs.ms.wlock <> None || s.cs.ms.wl <> []
            || s.wflag || s.rcount <> O || s.readers <> [] || s.writer <> None then
           addbad (Printf.sprintf "r%d:model-final-state-not-quiescent" i)) states;
-  if !bad = [] then print_endline "MON ok" else print_endline ("MONFAIL " ^ String.concat " " (List.rev !bad));
+  if !bad = [] then print_endline (if starved then "MON ok starved(unfinished=" ^ String.concat "," (List.map string_of_int unfinished) ^ ")" else "MON ok") else print_endline ("MONFAIL " ^ String.concat " " (List.rev !bad));
   Printf.printf "COV maxshare=%d %s\n" (max !shares (Array.fold_left max 0 maxshare))
     (String.concat " " (List.sort compare (Hashtbl.fold (fun k _ acc -> k :: acc) visited [])))
